@@ -1,9 +1,8 @@
 pub mod channel { pub mod mpsc {
     use std::cell::UnsafeCell;
-    use std::collections::VecDeque;
-    use std::sync::Arc;
+        use std::sync::Arc;
     use std::fmt;
-    pub struct Inner<T> { pub q: UnsafeCell<VecDeque<T>>, pub cap: usize, pub closed: UnsafeCell<bool> }
+    pub struct Inner<T> { pub q: UnsafeCell<Vec<T>>, pub cap: usize, pub closed: UnsafeCell<bool> }
     unsafe impl<T> Sync for Inner<T> {}
     unsafe impl<T> Send for Inner<T> {}
     pub struct Sender<T> { pub inner: Arc<Inner<T>> }
@@ -14,7 +13,7 @@ pub mod channel { pub mod mpsc {
     #[derive(Debug)] pub struct TryRecvError;
     impl fmt::Display for TryRecvError { fn fmt(&self, f: &mut fmt::Formatter<'_>) -> fmt::Result { write!(f, "channel empty") } }
     pub fn channel<T>(buffer: usize) -> (Sender<T>, Receiver<T>) {
-        let inner = Arc::new(Inner { q: UnsafeCell::new(VecDeque::new()), cap: buffer + 1, closed: UnsafeCell::new(false) });
+        let inner = Arc::new(Inner { q: UnsafeCell::new(Vec::new()), cap: buffer + 1, closed: UnsafeCell::new(false) });
         (Sender { inner: inner.clone() }, Receiver { inner })
     }
     impl<T> Sender<T> {
@@ -22,14 +21,14 @@ pub mod channel { pub mod mpsc {
             let q = unsafe { &mut *self.inner.q.get() };
             if unsafe { *self.inner.closed.get() } { return Err(TrySendError { full: false }); }
             if q.len() >= self.inner.cap { return Err(TrySendError { full: true }); }
-            q.push_back(msg); Ok(())
+            q.push(msg); Ok(())
         }
         pub fn same_receiver(&self, other: &Self) -> bool { Arc::ptr_eq(&self.inner, &other.inner) }
     }
     impl<T> Receiver<T> {
         pub fn try_next(&mut self) -> Result<Option<T>, TryRecvError> {
             let q = unsafe { &mut *self.inner.q.get() };
-            match q.pop_front() { Some(m) => Ok(Some(m)), None => Err(TryRecvError) }
+            if q.len() == 0 { Err(TryRecvError) } else { Ok(Some(q.remove(0))) }
         }
         pub fn len(&self) -> usize { unsafe { (&*self.inner.q.get()).len() } }
     }
